@@ -310,7 +310,14 @@ def classify(unit: Unit, h: Harness, out: str, rc: int, timed_out: bool, wall: f
     failed = [c for c in asserts if c.status == "FAILURE"]
     undet = [c for c in asserts if c.status in ("UNDETERMINED",)]
     unwind = [c for c in failed if "unwinding assertion" in c.description or ".unwind." in c.name]
-    model_fail = [c for c in failed if MODEL_LOC.search(c.location) or MODEL_LOC.search(c.description)]
+    # failures located in a model crate are capacity limits / model-internal assertions (undecided) — EXCEPT memory-safety checks
+    # (dereference of a freed object, double free, out-of-bounds write through a caller-supplied pointer) inside the FFI model
+    # of aws-lc: those are the caller's (= the repository wrapper's) misuse of the C API and are genuine
+    def ffi_memory_check(c):
+        return "verif-models/aws-lc-sys" in c.location and "[model]" not in c.description and (
+            ".pointer_dereference." in c.name or "double free" in c.description or "deallocated" in c.description
+            or "free argument" in c.description or "dereference failure" in c.description)
+    model_fail = [c for c in failed if (MODEL_LOC.search(c.location) or MODEL_LOC.search(c.description)) and not ffi_memory_check(c)]
     unsupported = [c for c in failed if "unsupported_construct" in c.name or "is not currently supported by Kani" in c.description]
     genuine = [c for c in failed if c not in unwind and c not in model_fail and c not in unsupported]
     r.failed = genuine
